@@ -215,6 +215,44 @@ func runC05(o *cli.Opts, run *evid.Run) {
 			checkDerived(key+"/derived", a, b, i%400 == 0)
 		}
 	})
+	// compile-time constants as gadget inputs (compiled R1CS and engine)
+	{
+		consts := []*big.Int{big.NewInt(0), big.NewInt(1), big.NewInt(5), new(big.Int).Sub(ref.R, one), new(big.Int).Lsh(one, 200)}
+		r := gen.RNG(o.Seed, "C05/const")
+		for len(consts) < o.Pick(10, 40) {
+			consts = append(consts, c05Elem(r))
+		}
+		cli.ForEach(len(consts), 0, func(i int) {
+			key := fmt.Sprintf("C05/const/%d", i)
+			if !run.Wants(key) {
+				return
+			}
+			k1, k2, k3 := consts[i], consts[(i+1)%len(consts)], consts[(i+2)%len(consts)]
+			shape := &PConstCircuit{K1: k1, K2: k2, K3: k3}
+			sys, err := rmon.Compile(rmon.BN254, shape)
+			if err != nil {
+				run.Violate(key, "constant-input harness does not compile: "+trim(err), nil)
+				return
+			}
+			rr := gen.RNG(o.Seed, key)
+			for it := 0; it < 4; it++ {
+				a := c05Elem(rr)
+				as := &PConstCircuit{A: a, H1: ref.H2(a, k1), H2: ref.H2(k2, a), H3: ref.H1(k3), H4: ref.H2(k1, k2), K1: k1, K2: k2, K3: k3}
+				sample := map[string]any{"a": "0x" + a.Text(16), "k1": "0x" + k1.Text(16), "k2": "0x" + k2.Text(16), "k3": "0x" + k3.Text(16)}
+				res := sys.Solve(as, nil)
+				if !res.Accepted {
+					run.Violate(fmt.Sprintf("%s/%d", key, it), "gadgets fed with compile-time constants disagree with the reference in the compiled R1CS: "+trim(res.Err), sample)
+				}
+				run.Case("constants/r1cs", true, fmt.Sprintf("%s/%d", key, it), res.Accepted, sample)
+				if it == 0 {
+					if err := test.IsSolved(shape, as, rmon.BN254); err != nil {
+						run.Violate(fmt.Sprintf("%s/%d/engine", key, it), "gadgets fed with compile-time constants disagree with the reference in the test engine: "+trim(err), sample)
+					}
+					run.Add("engine_runs", 1)
+				}
+			}
+		})
+	}
 	// several circuits using the gadgets are DEFINED at the same time (gnark's own test helpers do this with
 	// t.Parallel; setup of both modes may run concurrently): every one of them must still be the reference function
 	{
